@@ -560,6 +560,8 @@ def run(prog, rep):
     rep.floor("eq methods", n_eq, 18)
     rep.attempt(exact_scalars, prog, cd, rep)
     rep.attempt(exact_arrays_normalised, prog, cd, rep)
+    from ..staging import constructor_dtypes
+    rep.attempt(constructor_dtypes, prog, cd, rep)
     rep.attempt(eq_type_guard, prog, rep)
     rep.attempt(allclose_on_sequences, prog, cd, rep)
     cell_coverage(prog, cd, rep)
@@ -584,5 +586,14 @@ def run(prog, rep):
         rep.ok("eq-file", "Tdf.__eq__ conjoins version, nEntries and blocks", nontrivial=True)
     else:
         rep.fail("eq-file", "basictdf.py", "Tdf.__eq__", getattr(info, "ret", f.node), f"Tdf.__eq__ does not compare {sorted(need - cov)}", construct=f"Tdf.__eq__ :: {sorted(need - cov)}")
+    # "exactly when their ... block lists do": lists compare position by position; a dict / set / sorted view of the blocks forgets the order
+    unordered = [x for x in ast.walk(f.node) if (isinstance(x, (ast.DictComp, ast.SetComp, ast.Dict, ast.Set))
+                                                or (isinstance(x, ast.Call) and norm(x.func) in ("dict", "set", "frozenset", "sorted", "Counter", "collections.Counter")))
+                 and any(isinstance(y, ast.Attribute) and y.attr == "blocks" for y in ast.walk(x))]
+    if unordered:
+        rep.fail("eq-file", "basictdf.py", "Tdf.__eq__", unordered[0], f"the block lists are compared through `{norm(unordered[0])[:60]}`, which forgets their order: files holding the same blocks in different slots compare equal",
+                 construct="Tdf.__eq__ :: unordered blocks")
+    else:
+        rep.ok("eq-file", "Tdf.__eq__ compares the block lists as sequences (no dict / set / sorted view)")
     # TdfEntry
     rep.not_decided += ["tolerance semantics of np.allclose ('beyond float tolerance' is the property's wording)", "object-array comparison in Data2DPCK.__eq__"]
